@@ -291,7 +291,9 @@ func (cr *cliReplayer) runConcrete(j *Job, m *ConcreteModel, aid string) *Native
 	doc := cliDoc
 	if libFails && sc.Cmd != "verify" {
 		doc = cliBadDoc
-		if sc.Cmd == "output" && !sc.Massive {
+		if sc.Cmd == "output" && !sc.Massive && sc.TimeoutNs == 0 {
+			// (a --massive-timeout alone selects the massive mode as well: how much it prints before a failure is the
+			// scheduler's choice, so partial output is compared in the simple mode only)
 			doc = cliBadDoc2
 		}
 	}
